@@ -128,6 +128,14 @@ Definition enc_method (m : method) : sexp :=
   SA (match m with MAdd => "add" | MSub => "sub" | MMul => "mul" | MDiv => "div" | MPow => "pow" | MAnd => "and"
                | MOr => "or" | MXor => "xor" | MMulRecip => "mul-reciprocal" | MNegAdd => "neg-add" | MNotImpl => "not-implemented" end).
 
+Definition dec_cmp (s : sexp) : option cmp :=
+  match s with
+  | SA "__lt__" => Some CLt | SA "__le__" => Some CLe | SA "__gt__" => Some CGt | SA "__ge__" => Some CGe
+  | SA "__eq__" => Some CEq | SA "__ne__" => Some CNe | _ => None
+  end.
+Definition enc_cmp (c : cmp) : sexp :=
+  SA (match c with CLt => "__lt__" | CLe => "__le__" | CGt => "__gt__" | CGe => "__ge__" | CEq => "__eq__" | CNe => "__ne__" end).
+
 Definition dispatch (cmd : string) (args : list sexp) : option sexp :=
   match cmd, args with
   | "binary", [f; cl; d; s; o] =>
@@ -148,6 +156,8 @@ Definition dispatch (cmd : string) (args : list sexp) : option sexp :=
   | "dunder", [d] =>
       option_map (fun d => let '(m, ip, sf) := dunder_impl fixed_rsub d in SL [enc_method m; enc_bool ip; enc_bool sf])
                  (dec_dunder d)
+  | "cmpdispatch", [c; SA "tc"] => option_map (fun c => enc_cmp (tc_dispatch c)) (dec_cmp c)
+  | "cmpdispatch", [c; SA "lazy"] => option_map (fun c => enc_cmp (lazy_dispatch c)) (dec_cmp c)
   | "clamp", [s; lo; hi] =>
       match dec_items s, dec_items lo, dec_items hi with
       | Some s, Some lo, Some hi => Some (SL [SA "ok"; enc_clamp (clamp_plan s lo hi)])
